@@ -238,7 +238,7 @@ func c08(ctx *core.Ctx) {
 	quietLogs()
 	ctx.Rule("generated CORS configurations (0-4 allowed domains +/- the .* wildcard, optional predicate over a fixed set, cookies, exposed headers, max-age, allowed methods/headers) on generated route tables, both routers; origins per allowed entry: exact, case variants, proper prefix/suffix, superstrings (entry.evil.com, evil-entry, x+entry), port/scheme variants, regex look-alikes (. -> x), trailing dot/slash/space/tab, host only, list 'a,a', null, empty, unicode; requests: route hit, other method, 404, OPTIONS with and without Access-Control-Request-Method. Oracle: reference policy; not allowed / no Origin => no Access-Control-* header and complete response + event log equal to a twin container without the filter; allowed => Allow-Origin at most once and byte-equal to Origin, credentials only if configured. Non-trivial = a request carrying an Origin; distinct by (policy verdict, origin mutation kind, request kind, list size, predicate).")
 	ctx.Assume("predicate results are known from the configuration (fixed case-insensitive set) and cross-checked against a tap on the predicate")
-	configs := ctx.N(400, 8000)
+	configs := ctx.N(400, 80000)
 	for ci := 0; ci < configs; ci++ {
 		if ctx.Skip(ci) {
 			continue
@@ -421,7 +421,7 @@ func judgePreflight(cfg *corsCfg, allowedMethods []string, acrm, acrh string, ou
 func c09(ctx *core.Ctx) {
 	quietLogs()
 	ctx.Rule("generated CORS configurations x route tables (C17's fragment), both routers. Preflights: requested method from {GET,POST,PUT,DELETE,PATCH,HEAD, lower-case, unknown}, requested header lists (0-4 entries, any case, SP around commas, one foreign header at any position). Oracle: no later filter/handler event; grant => method within allowed methods (configured, or probed on a filter-less twin when unconfigured) and every header allowed; listed method + allowed headers => grant; refusal => zero Access-Control-* headers. Actual requests from allowed origins: chain continues like the twin and Allow-Origin/Credentials/Expose-Headers/Max-Age appear exactly once when configured. History: 30 preflights alternating over URLs with different method sets on ONE filter value, sequentially and from 8 goroutines (race detector on). Non-trivial = a judged preflight or actual request; distinct by (grant/refusal reason, configured vs computed methods, header list shape, history mode).")
-	configs := ctx.N(300, 6000)
+	configs := ctx.N(300, 30000)
 	reqHeaders := []string{"Content-Type", "content-type", "ACCEPT", "X-Custom", "Authorization", "X-Evil", "x-custom", "Accept"}
 	for ci := 0; ci < configs; ci++ {
 		if ctx.Skip(ci) {
